@@ -354,13 +354,9 @@ func runC12(c *Ctx) {
 			}
 			// truncation at every offset
 			for k := 0; k < len(good); k++ {
-				exp := "reject"
-				if k >= len(good)-2 {
-					// only the CRLF that closes the (empty) final chunk is missing: the
-					// terminating chunk itself arrived, tolerated either way
-					exp = "either"
-				}
-				mal("truncated", good[:k], len(payload), fmt.Sprintf("k=%d/%d", k, len(good)), exp)
+				// (also when only the CRLF closing the final zero chunk, or its LF, is missing: the
+				// framing is '<header>CRLF<data>CRLF' for every chunk, the empty one included)
+				mal("truncated", good[:k], len(payload), fmt.Sprintf("k=%d/%d", k, len(good)), "reject")
 			}
 			mal("decoded-length+1", good, len(payload)+1, "-", "reject")
 			mal("decoded-length-1", good, len(payload)-1, "-", "reject")
@@ -416,7 +412,7 @@ func runC12(c *Ctx) {
 	r.Require("single_split_points", 1000)
 	r.Require("malformed_streams", 500)
 	r.Assume("ChunkEncoder writes '<hex size>;chunk-signature=<64 hex>\\r\\n<data>\\r\\n' per chunk and a final zero chunk; signatures are not verified by the server and are not judged",
-		"a stream truncated after the complete payload but inside the final zero chunk header counts as malformed framing; a stream that only lacks the CRLF closing the final chunk may be accepted or refused")
+		"a stream truncated after the complete payload but inside the final zero chunk header counts as malformed framing; so does a stream that only lacks the CRLF (or LF) closing the final zero chunk")
 }
 
 func chunkClass(ch []int, plen int) string {
